@@ -858,7 +858,11 @@ def spec_sum(eng, args, kwargs, st):
 
 def _sum_fact(name):
     def f(eng, args, kwargs, st):
-        from . import sums
+        from . import sums, npmodel
+        arrs = [npmodel.arr_of(eng, st, a) for a in args if isinstance(a, Ref)]
+        if arrs and all(isinstance(a.shape[0], int) for a in arrs if a is not None):
+            yield None, st          # concrete evaluation (native replay): sums are computed, no lemma is needed
+            return
         saved = eng.spec_mode
         eng.spec_mode = True
         try:
